@@ -2,6 +2,7 @@
 upload directory AND its surroundings; storage faults are injected into the write and the rename."""
 import asyncio, types, errno, builtins
 from common import *
+from pathlib import Path
 import fstree
 
 MAXSZ = 16
@@ -121,7 +122,7 @@ def run(tier, seed):
                 "spellings, the root itself, directory names, names of 230..256 and 300 bytes with and without missing parent directories, NUL, a file / directory / dangling link "
                 "that already carries the temporary file's name) x sizes around the limit x token none/good/bad/empty x media-type lists x delete on/off x injected faults (ENOSPC "
                 "after k bytes of the write, failing rename); secrets.token_hex is replaced by a known value per case and given to the model; non-trivial = distinct (tree, request, "
-                "configuration, fault)")
+                "configuration, fault); the handler is built directly or through a [titan] section of a TOML file (ServerConfig.from_toml -> get_upload_handler), half each")
     tmp = scratch_dir("nv-c14-")
     ntrees = 50 if tier == "quick" else 800
     per_tree = 25 if tier == "quick" else 40
@@ -148,7 +149,21 @@ def run(tier, seed):
                 tokens = rng.choice([None, ["good"], ["good", "other"]])
                 types_ = rng.choice([None, None, ["text/gemini", "text/plain"]])
                 delete = rng.random() < 0.6
-                h = hm.FileUploadHandler(up, max_size=MAXSZ, allowed_types=types_, auth_tokens=set(tokens) if tokens else None, enable_delete=delete)
+                if rng.random() < 0.5:
+                    h = hm.FileUploadHandler(up, max_size=MAXSZ, allowed_types=types_, auth_tokens=set(tokens) if tokens else None, enable_delete=delete)
+                else:
+                    # the same configuration as a [titan] section of a TOML file: ServerConfig.from_toml(...).get_upload_handler()
+                    # (the snapshot "before" is taken afterwards: whatever loading the configuration does to the tree is not the request's doing)
+                    import json as _json
+                    cfgdir = os.path.join(os.path.dirname(real_tmp), os.path.basename(real_tmp) + "-cfg"); os.makedirs(cfgdir, exist_ok=True)
+                    toml = '[server]\ndocument_root = %s\n\n[titan]\nenabled = true\nupload_dir = %s\nmax_upload_size = %d\nenable_delete = %s\n' % (
+                        _json.dumps(cfgdir), _json.dumps(up), MAXSZ, "true" if delete else "false")
+                    if types_ is not None: toml += "allowed_mime_types = %s\n" % _json.dumps(types_)
+                    if tokens is not None: toml += "auth_tokens = %s\n" % _json.dumps(tokens)
+                    cf = os.path.join(cfgdir, "titan.toml"); open(cf, "w").write(toml)
+                    from nauyaca.server.config import ServerConfig
+                    h = ServerConfig.from_toml(Path(cf)).get_upload_handler()
+                    res.count("handler-from-toml")
                 req = None
                 try:
                     line = "titan://h" + path + ";size=%d;mime=%s" % (size, mime) + (";token=" + token if token is not None else "")
@@ -235,7 +250,7 @@ def run(tier, seed):
                 res.nontriv((ti, ri))
     finally:
         hm.secrets = real_secrets
-        shutil.rmtree(tmp, ignore_errors=True)
+        shutil.rmtree(tmp, ignore_errors=True); shutil.rmtree(os.path.realpath(tmp) + "-cfg", ignore_errors=True)
     out = run_model_parallel(mcases)
     for (nodes, cfg, mreq, fault, obs, before, after, status, target, line), mo in zip(meta, out):
         m = dec(mo)
